@@ -1,6 +1,9 @@
 package dna
 
 import (
+	"fmt"
+	"math"
+
 	"gonum.org/v1/gonum/mat"
 )
 
@@ -12,4 +15,38 @@ type DNAModel interface {
 	Eigens() (val []float64, leftvectors, rightvectors *mat.Dense, err error)
 	Analytical() bool                // returns true if analytical pij computation is possible and implemented
 	Pij(i, j int, l float64) float64 // Returns -1 if not possible to compute it anatically without eigens (or not yet implemented)
+}
+
+// Computes eigen values, left and right eigen vectors of the rate matrix q
+// of a time reversible model with stationary frequencies pi.
+//
+// Since pi_i*q_ij = pi_j*q_ji, the matrix S = Pi^(1/2) . Q . Pi^(-1/2) is symmetric:
+// its eigen values are real and its eigen vectors V orthonormal, even when some
+// eigen values are equal (e.g. F81). Then Q = R.D.L with R = Pi^(-1/2).V and
+// L = V^T.Pi^(1/2) = R^-1.
+func reversibleEigens(q *mat.Dense, pi []float64) (val []float64, leigenvect, reigenvect *mat.Dense, err error) {
+	var v mat.Dense
+	ns := len(pi)
+	sqrtpi := make([]float64, ns)
+	for i, p := range pi {
+		sqrtpi[i] = math.Sqrt(p)
+	}
+	s := mat.NewSymDense(ns, nil)
+	for i := 0; i < ns; i++ {
+		for j := i; j < ns; j++ {
+			s.SetSym(i, j, sqrtpi[i]*q.At(i, j)/sqrtpi[j])
+		}
+	}
+	eigen := &mat.EigenSym{}
+	if ok := eigen.Factorize(s, true); !ok {
+		err = fmt.Errorf("Problem during matrix decomposition")
+		return
+	}
+	val = eigen.Values(nil)
+	eigen.VectorsTo(&v)
+	reigenvect = mat.NewDense(ns, ns, nil)
+	leigenvect = mat.NewDense(ns, ns, nil)
+	reigenvect.Apply(func(i, j int, val float64) float64 { return v.At(i, j) / sqrtpi[i] }, reigenvect)
+	leigenvect.Apply(func(i, j int, val float64) float64 { return v.At(j, i) * sqrtpi[j] }, leigenvect)
+	return
 }
